@@ -13,7 +13,7 @@ class LostAnchor(Exception):
 
 class Contract:
     def __init__(self, requires=(), ensures=(), ret='r', rename=None, free=False, body_subst=(), drop_const=True,
-                 self_ty=None, note=None, extra_generics=None, props=()):
+                 self_ty=None, note=None, extra_generics=None, props=(), optional=False):
         self.requires = list(requires)   # [(label, text)]
         self.ensures = list(ensures)     # [(label, text)]
         self.ret = ret
@@ -22,6 +22,7 @@ class Contract:
         self.body_subst = list(body_subst)  # [(pattern-token-texts, replacement-text)] R1 re-pointing
         self.props = list(props)         # property ids this obligation counts for
         self.note = note
+        self.optional = optional         # the function need not be generated (e.g. an override of a std default method)
 
 def T(text):
     return rtok.parse(text)
